@@ -4,7 +4,16 @@
    The parser is the inverse of runner/main.ml's printer.  Sub-waker labels (S<first member that was handed an equivalent waker>) are mapped back to
    slot numbers: for the fixed combinators label = slot; for a group the slot is the key of the member that is polled with the label. *)
 open Mon
-let rec nat_of_int n = if n <= 0 then O else S (nat_of_int (n - 1))
+(* memoised (and shared): the fresh slot numbers of members whose key is unknown start at 100000, and a unary numeral of that size must not be rebuilt per token *)
+let nat_memo : (int, nat) Hashtbl.t = Hashtbl.create 1024
+let nat_of_int n =
+  let rec up k acc = if k > n then acc else (let v = S acc in Hashtbl.replace nat_memo k v; up (k + 1) v) in
+  if n <= 0 then O else
+  match Hashtbl.find_opt nat_memo n with
+  | Some v -> v
+  | None ->
+      let rec base k = if k <= 0 then (0, O) else (match Hashtbl.find_opt nat_memo k with Some v -> (k, v) | None -> base (k - 1)) in
+      let (k0, v0) = base (n - 1) in up (k0 + 1) v0
 let split c s = String.split_on_char c s
 let starts p s = String.length s >= String.length p && String.sub s 0 (String.length p) = p
 let after p s = String.sub s (String.length p) (String.length s - String.length p)
@@ -94,22 +103,22 @@ let () =
        | None -> ()
        | Some t ->
          let live = strip (until_drop t) in           (* the theorems about a live combinator speak about the history before it is dropped / unwinds *)
-         let polls = polls_from O live in
+         let polls_l = lazy (polls_from O live) in
          let fail name = incr nfail; Printf.printf "%s %s fails\n" id name in
          let check name b = if relevant name then begin incr neval; if not (Lazy.force b) then fail name end in
          let fixed_scan = List.mem comb ["join"; "try_join"; "merge"; "zip"] in
          if std && fixed_scan then check "mon16" (lazy (mon16 (nat_of_int n) t));
          if std && is_group && not has_ext then check "mon16" (lazy (mon16 O t));
-         if comb = "merge" then check "runE" (lazy (some (runE polls)));
+         if comb = "merge" then check "runE" (lazy (some (runE (Lazy.force polls_l))));
          if comb = "merge" then check "eager_b" (lazy (eager_b live));
-         if comb = "chain" then check "runC" (lazy (some (runC polls)));
+         if comb = "chain" then check "runC" (lazy (some (runC (Lazy.force polls_l))));
          if comb = "chain" then check "chain_b" (lazy (chain_b live));                         (* C10_sequential_predicate_holds *)
          if comb = "zip" then check "zip_b" (lazy (zip_b (nat_of_int n) live));                (* C09_rows_predicate_holds *)
          (* the two theorems speak about histories that have not unwound: a trace in which a child panicked is left to the other checks *)
          let nopanic = not (List.exists (function EAns APanic -> true | _ -> false) live) in
          if comb = "race" && nopanic then check "race_b" (lazy (race_b live));                    (* C06_result_predicate_holds *)
          if (comb = "wait_fut" || comb = "wait_stream") && nopanic then check "wait_b" (lazy (wait_b live));   (* C19_gate_predicate_holds *)
-         if comb = "race_ok" then check "runK" (lazy (some (runK polls)));
+         if comb = "race_ok" then check "runK" (lazy (some (runK (Lazy.force polls_l))));
          if is_group && not has_ext then begin
            check "chk" (lazy (chk O [] live));
            check "chkN" (lazy (chkN (comb = "sgroup" || comb = "sgroup_keyed") O O live));
